@@ -42,6 +42,9 @@ def run(ctx: Ctx):
         efr = rng.random() < 0.5
         out = rng.choice(["pandas", "numpy", "sparse"])
         exp, kind, det = M.run_build(frame, terms, efr, "drop", [], out)
+        if kind.startswith("nonnumeric"):
+            ctx.fail(f"the model matrix of {M.formula_of(terms)!r} holds a non-numeric cell ({kind.split(':', 1)[1]}); text columns must be dummy-coded",
+                     {"kind": "build", "frame": frame.describe(), "terms": terms, "output": out})
         lits.append(M.case_literal(frame, terms, efr, "drop", [], exp))
         descr.append({"frame": frame.describe(), "terms": terms, "output": out, "implementation": kind})
         ctx.count("build", f"cat_dtype={frame.cat_dtype}")
